@@ -30,7 +30,7 @@ func (c13) Meta(tier string) engine.Meta {
 	}
 	return engine.Meta{
 		Level: "model_checking",
-		Rule: fmt.Sprintf("explicit enumeration of ALL histories of <= %d operations (both back ends up to depth 3, the VM at the last depth) over a menu of 22 operations on ONE engine: compile expression e0..e4 against one SHARED *types.Env object; invoke compiled expression k with one SHARED *val.Env object, with a host struct, with a host map; run Debug on two expressions. The expressions print, render multi-entry maps and objects, call string / union / intersect / diff with several surviving elements, reach one value through two paths, and fail. Every history is executed under map-iteration seeds 1..8. Oracle (differential): the last operation's result, its rendering (String() and string(x)), its error class and the captured standard output must equal those of the same operation on a brand-new engine with brand-new environments under seed 1; stdout is empty unless the expression calls print; the host struct / map deep-equal their snapshot afterwards. Plus a long history: 300 compilations of a 300-constant literal followed by fresh compilations. non-trivial = histories of >= 2 operations", d),
+		Rule: fmt.Sprintf("explicit enumeration of ALL histories of <= %d operations (both back ends up to depth 3, the VM at the last depth) over a menu of 25 operations on ONE engine: compile expression e0..e4 against one SHARED *types.Env object; invoke compiled expression k with one SHARED *val.Env object, with a host struct, with a host map; run Debug on two expressions; compile / invoke an expression that calls function values chosen at run time, with two shared environments holding different values. The expressions print, render multi-entry maps and objects, call string / union / intersect / diff with several surviving elements, reach one value through two paths, and fail. Every history is executed under map-iteration seeds 1..8. Oracle (differential): the last operation's result, its rendering (String() and string(x)), its error class and the captured standard output must equal those of the same operation on a brand-new engine with brand-new environments under seed 1; stdout is empty unless the expression calls print; the host struct / map deep-equal their snapshot afterwards. Plus a long history: 300 compilations of a 300-constant literal followed by fresh compilations. non-trivial = histories of >= 2 operations", d),
 		Bound: fmt.Sprintf("depth %d; 5 expressions; 3 environment representations; 8 seeds", d),
 		Assumptions: []string{"a state is the whole history that reaches it (no state merging), so no canonicalisation argument is needed"},
 	}
@@ -74,9 +74,26 @@ func c13Spec() real.EnvSpec {
 	}}
 }
 
-// operations: 0..4 compile e_i; 5..19 invoke e_{(op-5)/3} with rep (op-5)%3 (0 shared raw env, 1 host
+// e5 calls function values picked at run time; it has its own pair of shared raw environments
+// (A: c=true, i=0; B: c=false, i=1) because host data cannot carry functions.
+const c13DynExpr = `[f, g][i](n) + if(c, f, g)(1) + [h2][0](n, i)`
+
+func c13DynSpec(b bool) real.EnvSpec {
+	funs := real.StdHost().EnvFuns()
+	i := 0.0
+	if !b {
+		i = 1
+	}
+	return real.EnvSpec{Rep: "raw", Binds: []real.Binding{
+		{Name: "c", V: ref.BoolV(b)}, {Name: "i", V: ref.NumV(i)}, {Name: "n", V: ref.NumV(5)},
+		{Name: "f", V: funs["f"]}, {Name: "g", V: funs["g"]}, {Name: "h2", V: funs["h2"]},
+	}}
+}
+
+// operations: 22 compile e5; 23 / 24 invoke e5 with shared environment A / B;
+// 0..4 compile e_i; 5..19 invoke e_{(op-5)/3} with rep (op-5)%3 (0 shared raw env, 1 host
 // struct, 2 host map); 20, 21 Debug(e0), Debug(e2)
-const c13Ops = 22
+const c13Ops = 25
 
 func c13OpName(op int) string {
 	switch {
@@ -84,6 +101,12 @@ func c13OpName(op int) string {
 		return fmt.Sprintf("compile(e%d)", op)
 	case op < 20:
 		return fmt.Sprintf("invoke(e%d,%s)", (op-5)/3, []string{"shared-env", "struct", "map"}[(op-5)%3])
+	case op == 22:
+		return "compile(e5)"
+	case op == 23:
+		return "invoke(e5,shared-env-A)"
+	case op == 24:
+		return "invoke(e5,shared-env-B)"
 	}
 	return fmt.Sprintf("debug(e%d)", []int{0, 2}[op-20])
 }
@@ -124,6 +147,10 @@ func (c13) Generate(tier string, yield func(*engine.Case) bool) {
 				c2 |= 1 << op
 			} else if op < 20 && compiled&(1<<((op-5)/3)) == 0 {
 				continue // cannot invoke what this history has not compiled
+			} else if op == 22 {
+				c2 |= 1 << 5
+			} else if op > 22 && compiled&(1<<5) == 0 {
+				continue
 			}
 			rec(append(append([]int(nil), h...), op), c2)
 		}
@@ -140,7 +167,10 @@ type c13World struct {
 	venv     *val.Env
 	hstruct  c13Host
 	hmap     map[string]interface{}
-	callable [5]yae.Callable
+	callable [6]yae.Callable
+	tenv5    *types.Env
+	venvA    *val.Env
+	venvB    *val.Env
 }
 
 func newC13World(backend string) *c13World {
@@ -149,7 +179,8 @@ func newC13World(backend string) *c13World {
 		e.UseClosureCompiler()
 	}
 	spec := c13Spec()
-	return &c13World{e: e, tenv: spec.RawTypeEnv(), venv: spec.RawValEnv(), hstruct: c13HostStruct(), hmap: c13HostMap()}
+	return &c13World{e: e, tenv: spec.RawTypeEnv(), venv: spec.RawValEnv(), hstruct: c13HostStruct(), hmap: c13HostMap(),
+		tenv5: c13DynSpec(true).RawTypeEnv(), venvA: c13DynSpec(true).RawValEnv(), venvB: c13DynSpec(false).RawValEnv()}
 }
 
 type c13Obs struct {
@@ -167,6 +198,12 @@ func (w *c13World) do(op int) (o c13Obs) {
 			}
 		}()
 		switch {
+		case op == 22:
+			w.callable[5], err = w.e.Compile(c13DynExpr, w.tenv5)
+		case op == 23:
+			v, err = w.callable[5](w.venvA)
+		case op == 24:
+			v, err = w.callable[5](w.venvB)
 		case op < 5:
 			w.callable[op], err = w.e.Compile(c13Exprs[op], w.tenv)
 		case op < 20:
@@ -226,6 +263,9 @@ func (c13) Run(c *engine.Case) *engine.Result {
 	bw := newC13World(backend)
 	if last >= 5 && last < 20 {
 		bw.do((last - 5) / 3)
+	}
+	if last > 22 {
+		bw.do(22)
 	}
 	base := bw.do(last)
 	res.Execs++
